@@ -13,11 +13,29 @@ enum Att {
     Rx(IpcReceiver<Msg>),
     Shm(IpcSharedMemory),
 }
+/// a field whose deserialisation fails when the flag is set (a value the receiving side rejects)
+struct Poison(bool);
+impl Serialize for Poison {
+    fn serialize<S: serde::Serializer>(&self, s: S) -> Result<S::Ok, S::Error> {
+        s.serialize_bool(self.0)
+    }
+}
+impl<'de> Deserialize<'de> for Poison {
+    fn deserialize<D: serde::Deserializer<'de>>(d: D) -> Result<Self, D::Error> {
+        if bool::deserialize(d)? {
+            Err(serde::de::Error::custom("rejected by the receiving side"))
+        } else {
+            Ok(Poison(false))
+        }
+    }
+}
 #[derive(Serialize, Deserialize)]
 struct Msg {
     data: u64,
     pad: Vec<u8>,
+    early: Poison,
     atts: Vec<Att>,
+    late: Poison,
 }
 
 enum Obj {
@@ -106,8 +124,9 @@ pub fn run() {
                 }
             },
             "send" => {
-                // send h data pad att,att,...   att = t:<h> | r:<h> | m:<h>
+                // send h data pad att,att,... [e|l]   att = t:<h> | r:<h> | m:<h>; e/l: decoding fails before / after the attachments
                 let i = h(t[1]);
+                let (early, late) = (t.get(5) == Some(&"e"), t.get(5) == Some(&"l"));
                 let data: u64 = t[2].parse().unwrap();
                 let pad: usize = t[3].parse().unwrap();
                 let mut atts = Vec::new();
@@ -129,7 +148,7 @@ pub fn run() {
                     }
                 }
                 match (bad, objs.get(i)) {
-                    (false, Some(Obj::Tx(s))) => match s.send(Msg { data, pad: payload(data, pad), atts }) {
+                    (false, Some(Obj::Tx(s))) => match s.send(Msg { data, pad: payload(data, pad), early: Poison(early), atts, late: Poison(late) }) {
                         Ok(()) => "RSent".into(),
                         Err(_) => "RSendErr".into(),
                     },
@@ -141,7 +160,7 @@ pub fn run() {
                 let r = match objs.get(i) {
                     Some(Obj::Rx(r)) => Some(match t[0] {
                         "recv" => r.try_recv(),
-                        "recvt" => r.try_recv_timeout(Duration::from_millis(t[2].parse().unwrap())),
+                        "recvt" => r.try_recv_timeout(Duration::from_millis(0)),
                         _ => r.recv().map_err(TryRecvError::IpcError),
                     }),
                     _ => None,
@@ -157,6 +176,15 @@ pub fn run() {
                     },
                     Some(Err(TryRecvError::Empty)) => "REmpty".into(),
                     Some(Err(TryRecvError::IpcError(IpcError::Disconnected))) => "RDisconnected".into(),
+                    Some(Err(TryRecvError::IpcError(IpcError::Bincode(_)))) => {
+                        // the message was consumed but could not be decoded: nothing it carried reaches the program;
+                        // keep the handle numbering of the models (which install and then drop what it carried)
+                        let k: usize = t.get(2).map(|s| s.parse().unwrap()).unwrap_or(0);
+                        for _ in 0..k {
+                            objs.push(Obj::Gone);
+                        }
+                        "RDecodeErr".into()
+                    },
                     Some(Err(e)) => format!("RErr({:?})", e),
                 }
             },
